@@ -4,6 +4,9 @@ C13 property theorems (statements only; helper lemmas are in Lemmas*.lean).
 import BV.C13.LemmasMerkle
 import BV.C13.LemmasBasic
 import BV.C13.LemmasScript
+import BV.C13.LemmasScript2
+import BV.C13.LemmasWitness
+import BV.C13.LemmasHeight
 import BV.Generated.C13
 namespace BV.C13
 open Spec
@@ -129,6 +132,26 @@ theorem tokenizer_eq_getOp (s : Bytes) (hs : s.length < 2^31) :
       | some (o, d, r) => .op o d r
       | none => if s = [] then .done else .err := Lemmas.tokNext_eq s hs
 
+/-- `GetPreciseSigOpCount` = the protocol's P2SH count: for a P2SH output the accurate count of the
+    LAST push of a push-only scriptSig (0 if the scriptSig is not push-only, does not parse, or is
+    empty), otherwise the accurate count of the scriptPubKey. -/
+theorem p2sh_sigops (sig pk : Bytes) (h1 : sig.length < 2^31) (h2 : pk.length < 2^31) :
+    getPreciseSigOpCount sig pk = p2shSigOps sig pk := Lemmas.preciseSigOps_eq_spec sig pk h1 h2
+
+/-- the tokenizer-based witness-program test equals the protocol's byte-level `IsWitnessProgram`
+    (4..42 bytes, OP_0/OP_1..OP_16, one direct push of the remaining 2..40 bytes) for EVERY script -/
+theorem witnessProgram_eq_spec (s : Bytes) : extractWitnessProgramInfo s = witnessProgram s :=
+  Lemmas.witnessProgram_eq_spec s
+
+/-- `GetWitnessSigOpCount` = `CountWitnessSigOps`: P2WPKH = 1, P2WSH = accurate count of the last
+    witness item, other versions 0, the same through a P2SH-nested program. -/
+theorem witness_sigops (sig pk : Bytes) (wit : List Bytes) (hs : sig.length < 2^31)
+    (hw : ∀ w ∈ wit, w.length < 2^31) :
+    getWitnessSigOpCount sig pk wit = witnessSigOps sig pk wit :=
+  Lemmas.witnessSigOps_eq_spec sig pk wit hs hw
+
+example : witnessSigOps [] ([0x00, 0x14] ++ List.replicate 20 7) [] = 1 := by decide
+
 /-- unified cost = 4·(legacy + P2SH) + witness, when every spent output is available -/
 theorem sigOpCost_def (t : Tx) (utxos : List Utxo) (p w : Nat)
     (hp : countP2SHSigOps t false utxos = some p)
@@ -139,6 +162,50 @@ theorem sigOpCost_def (t : Tx) (utxos : List Utxo) (p w : Nat)
   rw [Lemmas.witnessLoop_acc, hw]
   simp only [Option.map_some]
   congr 1; omega
+
+/-! ### coinbase height (BIP34) -/
+
+/-- the script builder's `AddInt64` is the BIP34 encoder `CScript() << height` -/
+theorem addInt64_eq_bip34 (h : Nat) (hh : h < 2^31) : addInt64 (h : Int) = heightScript h :=
+  Lemmas.addInt64_eq_heightScript h hh
+
+/-- round trip: for EVERY height 0..2^31−1 and every continuation of the script,
+    `ExtractCoinbaseHeight` returns the height the BIP34 encoder wrote. -/
+theorem coinbaseHeight_roundtrip (h : Nat) (hh : h < 2^31) (tail : Bytes) :
+    extractCoinbaseHeight (heightScript h ++ tail) = .ok (h : Int) := by
+  rw [← addInt64_eq_bip34 h hh]; exact Lemmas.coinbaseHeight_roundtrip h hh tail
+
+/-- minimal encoding enforced: whatever height is extracted, the script starts with exactly the
+    canonical encoding of that height. -/
+theorem coinbaseHeight_minimal (s : Bytes) (h : Int) (hx : extractCoinbaseHeight s = .ok h) :
+    (addInt64 h).isPrefixOf s = true := by
+  unfold extractCoinbaseHeight at hx
+  match s, hx with
+  | op :: rest, hx =>
+    simp only [] at hx
+    have hlt := op.toNat_lt
+    split at hx
+    · next h0 =>
+      injection hx with hx; subst hx
+      have : op = 0 := by apply UInt8.toNat_inj.mp; simpa using h0
+      subst this; simp [addInt64]
+    · split at hx
+      · next h1 =>
+        injection hx with hx; subst hx
+        have e : addInt64 ((op.toNat - 0x50 : Nat) : Int) = [op] := by
+          unfold addInt64
+          rw [if_neg (by omega), if_pos (Or.inr ⟨by omega, by omega⟩)]
+          congr 1
+          apply UInt8.toNat_inj.mp
+          simp only [Lemmas.u8]
+          have : (0x50 + ((op.toNat - 0x50 : Nat) : Int)).toNat = op.toNat := by omega
+          rw [this]; omega
+        rw [e]; simp
+      · split at hx
+        · cases hx
+        · split at hx
+          · next hp => injection hx with hx; subst hx; exact hp
+          · cases hx
 
 /-! ### finality and BIP68 -/
 
